@@ -1,5 +1,6 @@
-(* C10 (c): every well-formed document tree of the fragment is accepted. *)
+(* C10 (c): every well-formed document tree of the grammar (arrays delivered in chunks included) is accepted. *)
 From CE Require Import Model.Rules Model.RulesSpec Proofs.RulesPassthrough Proofs.RulesKeys Proofs.RulesInvariants Proofs.RulesStructure Proofs.RulesLimits Proofs.RulesMarkers Proofs.RulesDocument.
+From CE Require Import Proofs.Utf8Lemmas Proofs.Utf8Stream Proofs.RulesArrayProofs.
 From Coq Require Import ZifyN ZifyNat ZifyBool.
 Open Scope N_scope.
 
@@ -867,6 +868,7 @@ Section ValInd.
   Hypothesis HRecord : forall id fields close, Forall P fields -> P (VRecord id fields close).
   Hypothesis HMarked : forall id n v, P v -> P (VMarked id n v).
   Hypothesis HRef : forall id, P (VRef id).
+  Hypothesis HChunked : forall b chs, P (VChunked b chs).
 
   Fixpoint val_ind' (v : val) : P v :=
     match v with
@@ -888,6 +890,7 @@ Section ValInd.
                                     match l with [] => Forall_nil _ | x :: r => Forall_cons x (val_ind' x) (go r) end) fields)
     | VMarked id n v => HMarked id n v (val_ind' v)
     | VRef id => HRef id
+    | VChunked b chs => HChunked b chs
     end.
 End ValInd.
 
@@ -930,6 +933,480 @@ Lemma marker_usage_cons e l : marker_usage (e :: l) = (if is_marker e then 1 els
 Proof. reflexivity. Qed.
 Lemma usage_pads n : object_usage (repeat EPadding n) = 0 /\ marker_usage (repeat EPadding n) = 0.
 Proof. induction n as [|n [I1 I2]]; [split; reflexivity|]. cbn [repeat]. rewrite object_usage_cons, marker_usage_cons, I1, I2. split; reflexivity. Qed.
+
+(* ------------------------------------------------------------------------- *)
+(* Arrays delivered in chunks                                                 *)
+(* ------------------------------------------------------------------------- *)
+Definition arule (sr : bool) : rule := if sr then RString else RArray.
+Definition crule (sr : bool) : rule := if sr then RStringChunk else RArrayChunk.
+
+Section ArrayRun.
+  Variable cfg : rcfg.
+  Notation call5 := (call_rule 5 cfg).
+
+  Lemma rstep_chunk sr c n more :
+    e_rule (cur c) = arule sr ->
+    rstep cfg c (EArrayChunk n more) =
+    match rule_chunk cfg call5 sr n more c with Some c' => Some (c', [EArrayChunk n more]) | None => None end.
+  Proof.
+    intro R. rewrite rstep_plan. cbn [ev_plan]. unfold mkplan, plan_step. cbn [p_nno p_meth p_args p_out].
+    rewrite (call_current_cell cfg _ _ c _ R).
+    destruct sr; cbn [arule]; [change (dispatch RString MArrayChunk) with [PStringRuleChunk] | change (dispatch RArray MArrayChunk) with [PArrayRuleChunk]];
+      cbn [exec_prims exec_prim a_count a_more]; destruct (rule_chunk _ _ _ _ _ _); reflexivity.
+  Qed.
+
+  Lemma rstep_data sr c d :
+    e_rule (cur c) = crule sr ->
+    rstep cfg c (EArrayData d) =
+    match chunk_data call5 sr d c with Some c' => Some (c', [EArrayData d]) | None => None end.
+  Proof.
+    intro R. rewrite rstep_plan. cbn [ev_plan]. unfold mkplan, plan_step. cbn [p_nno p_meth p_args p_out].
+    rewrite (call_current_cell cfg _ _ c _ R).
+    destruct sr; cbn [crule]; [change (dispatch RStringChunk MArrayData) with [PStringChunkRuleData] | change (dispatch RArrayChunk MArrayData) with [PArrayChunkRuleData]];
+      cbn [exec_prims exec_prim array_args a_data]; destruct (chunk_data _ _ _ _); reflexivity.
+  Qed.
+
+  (* only chunk events at the array rules (and comments, for the arrays that are not string-like), only data
+     events at the chunk rules *)
+  Lemma array_rules_table :
+    forallb (fun m => meth_beq m MArrayChunk || meth_beq m MComment || has_reject (dispatch RArray m)) all_meths = true /\
+    only_meth RString MArrayChunk = true /\
+    only_meth RArrayChunk MArrayData = true /\ only_meth RStringChunk MArrayData = true /\ dispatch RArray MComment = [].
+  Proof. vm_compute. repeat split; reflexivity. Qed.
+
+  Lemma ev_plan_array e pl :
+    ev_plan cfg e = Some pl ->
+    (p_meth pl = MArrayChunk -> exists n more, e = EArrayChunk n more) /\ (p_meth pl = MArrayData -> exists d, e = EArrayData d) /\
+    (p_meth pl = MComment -> exists m t, e = EComment m t).
+  Proof.
+    destruct e as [| |v| |m t| |b| | |n|n|z|[z|]|bits|[bf|]|[| | |]|[[| | |]|]|s|b|s| | |id|id| | | |id|id|t cnt d|t d|mt d|ct d|ct d|t|mt|t ct|n m|d];
+      cbn [ev_plan]; intro H;
+      repeat match goal with H : (if ?b then _ else _) = Some _ |- _ => destruct b; try discriminate H end;
+      unfold mkplan in H; inv_some; cbn [p_meth]; (split; [|split]); intro X; try discriminate X; eauto.
+  Qed.
+
+  Lemma arule_only sr c e c1 o :
+    e_rule (cur c) = arule sr -> rstep cfg c e = Some (c1, o) ->
+    (exists n more, e = EArrayChunk n more) \/ (sr = false /\ exists m t, e = EComment m t).
+  Proof.
+    intros R H. rewrite rstep_plan in H. destruct (ev_plan cfg e) as [pl|] eqn:P; [|discriminate].
+    destruct (plan_step cfg pl c) as [c2|] eqn:S; [|discriminate].
+    destruct array_rules_table as [T1 [T2 _]]. destruct (ev_plan_array _ _ P) as [P1 [_ P3]].
+    destruct sr; cbn [arule] in R.
+    - left. apply P1. exact (only_meth_spec _ _ _ _ _ _ T2 R S).
+    - rewrite forallb_forall in T1. specialize (T1 _ (all_meths_complete (p_meth pl))).
+      apply orb_true_iff in T1 as [T1|T1]; [apply orb_true_iff in T1 as [T1|T1]|].
+      + left. apply P1. apply meth_beq_true. exact T1.
+      + right. split; [reflexivity|]. apply P3. apply meth_beq_true. exact T1.
+      + rewrite plan_step_reject in S; [discriminate | rewrite R; exact T1].
+  Qed.
+
+  Lemma crule_only sr c e c1 o :
+    e_rule (cur c) = crule sr -> rstep cfg c e = Some (c1, o) -> exists d, e = EArrayData d.
+  Proof.
+    intros R H. rewrite rstep_plan in H. destruct (ev_plan cfg e) as [pl|] eqn:P; [|discriminate].
+    destruct (plan_step cfg pl c) as [c2|] eqn:S; [|discriminate].
+    destruct array_rules_table as [_ [_ [T1 [T2 _]]]].
+    apply (proj1 (proj2 (ev_plan_array _ _ P))). destruct sr; cbn [crule] in R;
+      [exact (only_meth_spec _ _ _ _ _ _ T2 R S) | exact (only_meth_spec _ _ _ _ _ _ T1 R S)].
+  Qed.
+
+  Lemma rstep_array_comment c m t : e_rule (cur c) = RArray -> rstep cfg c (EComment m t) = Some (c, [EComment m t]).
+  Proof.
+    intro R. rewrite rstep_plan. cbn [ev_plan]. unfold mkplan, plan_step. cbn [p_nno p_meth p_args p_out].
+    rewrite (call_current_cell cfg _ _ c _ R). destruct array_rules_table as [_ [_ [_ [_ C]]]]. rewrite C. reflexivity.
+  Qed.
+
+  (* ---- the data events of a chunk ---- *)
+  (* one data event that does not complete the chunk *)
+  Lemma chunk_data_more sr d c c1 :
+    chunk_data call5 sr d c = Some c1 -> chunk_actual c + blen d <> chunk_expected c ->
+    chunk_actual c + blen d < chunk_expected c /\ e_rule (cur c1) = e_rule (cur c) /\
+    chunk_actual c1 = chunk_actual c + blen d /\ chunk_expected c1 = chunk_expected c.
+  Proof.
+    unfold chunk_data. intros H NE.
+    destruct (chunk_expected c <? chunk_actual c + blen d) eqn:X; [discriminate|].
+    apply N.eqb_neq in NE. rewrite NE in H.
+    assert (chunk_actual c + blen d < chunk_expected c) as LT by (apply N.eqb_neq in NE; lia).
+    split; [exact LT|]. destruct sr.
+    - destruct (stream_string_data (utf8_rem c) d) as [[[f nx] rm]|]; [|discriminate].
+      destruct (validate_with (arr_validator c) f && validate_with (arr_validator c) nx); [|discriminate].
+      inv_some. rsimpl. repeat split; reflexivity.
+    - inv_some. rsimpl. repeat split; reflexivity.
+  Qed.
+
+  Lemma chunk_data_bound sr d c c1 :
+    chunk_data call5 sr d c = Some c1 -> chunk_actual c + blen d <= chunk_expected c.
+  Proof. unfold chunk_data. destruct (chunk_expected c <? chunk_actual c + blen d) eqn:X; [discriminate | lia]. Qed.
+
+  (* running the data events = folding [chunk_data] *)
+  Lemma data_run sr ds : forall c rest,
+    e_rule (cur c) = crule sr -> data_completes (chunk_expected c) (chunk_actual c) ds = true ->
+    steps cfg c (map EArrayData ds ++ rest) =
+    match chunk_fold call5 sr ds c with Some c' => steps cfg c' rest | None => None end.
+  Proof.
+    induction ds as [|d r IH]; intros c rest R D; [discriminate D|].
+    cbn [map app steps chunk_fold data_completes] in *. rewrite (rstep_data sr c d R).
+    destruct (chunk_data call5 sr d c) as [c1|] eqn:CD; [|reflexivity].
+    destruct (chunk_actual c + blen d =? chunk_expected c) eqn:E.
+    - destruct r; [reflexivity | discriminate D].
+    - apply N.eqb_neq in E. destruct (chunk_data_more _ _ _ _ CD E) as [LT [R1 [A1 X1]]].
+      apply andb_true_iff in D as [_ D]. apply IH; [rewrite R1; exact R | rewrite A1, X1; exact D].
+  Qed.
+
+  (* an accepted run from a chunk rule begins with data events that complete the chunk *)
+  Lemma data_parse sr n : forall es c cf,
+    (length es <= n)%nat -> steps cfg c es = Some cf -> e_rule (cur cf) = RTerminal -> e_rule (cur c) = crule sr ->
+    exists ds rest, es = map EArrayData ds ++ rest /\ data_completes (chunk_expected c) (chunk_actual c) ds = true /\
+                    (length rest < length es)%nat.
+  Proof.
+    induction n as [|n IH]; intros es c cf L S T R.
+    { destruct es; [|cbn in L; lia]. cbn in S. inv_some. rewrite R in T. destruct sr; discriminate T. }
+    destruct es as [|e es'].
+    { cbn in S. inv_some. rewrite R in T. destruct sr; discriminate T. }
+    cbn [steps] in S. destruct (rstep cfg c e) as [[c1 o]|] eqn:RS; [|discriminate].
+    destruct (crule_only _ _ _ _ _ R RS) as [d ->]. rewrite (rstep_data sr c d R) in RS.
+    destruct (chunk_data call5 sr d c) as [c1'|] eqn:CD; [|discriminate]. inv_some.
+    destruct (chunk_actual c + blen d =? chunk_expected c) eqn:E.
+    - exists [d], es'. cbn [map app data_completes length]. rewrite E. repeat split; lia.
+    - apply N.eqb_neq in E. destruct (chunk_data_more _ _ _ _ CD E) as [LT [R1 [A1 X1]]].
+      cbn [length] in L. destruct (IH es' c1 cf) as [ds [rest [E1 [D1 L1]]]]; [lia | exact S | exact T | rewrite R1; exact R |].
+      exists (d :: ds), rest. cbn [map app data_completes length]. apply N.eqb_neq in E. rewrite E.
+      split; [rewrite E1; reflexivity|]. split; [|lia]. apply andb_true_iff. split; [apply N.ltb_lt; exact LT|].
+      rewrite A1, X1 in D1. exact D1.
+  Qed.
+
+  Lemma data_completes_from ds : forall ex a, data_completes ex a ds = true -> a < ex -> completes_from ex a ds.
+  Proof.
+    induction ds as [|d r IH]; intros ex a D LT; [discriminate D|]. cbn [data_completes] in D.
+    destruct (a + blen d =? ex) eqn:E.
+    - destruct r; [|discriminate D]. apply N.eqb_eq in E. split.
+      + cbn [concat]. rewrite app_nil_r. exact E.
+      + intros pre suf Eq Ns. destruct pre as [|x pre]; [cbn [concat]; rewrite blen_nil; lia|].
+        cbn [app] in Eq. injection Eq as _ Eq. destruct pre; [cbn in Eq; subst suf; contradiction | discriminate Eq].
+    - apply andb_true_iff in D as [LT' D']. apply N.ltb_lt in LT'. destruct (IH ex (a + blen d) D' LT') as [T P]. split.
+      + rewrite blen_concat_cons. lia.
+      + intros pre suf Eq Ns. destruct pre as [|x pre]; [cbn [concat]; rewrite blen_nil; lia|].
+        cbn [app] in Eq. injection Eq as <- Eq. rewrite blen_concat_cons. specialize (P pre suf Eq Ns). lia.
+  Qed.
+
+  Lemma plain_fold ds : forall c,
+    data_completes (chunk_expected c) (chunk_actual c) ds = true ->
+    chunk_fold call5 false ds c =
+    end_chunk call5 false (set_array c (arr_type c) (more_chunks c) (built c) (arr_total c) (chunk_expected c) (chunk_expected c)
+                                     (utf8_rem c) (arr_validator c)).
+  Proof.
+    induction ds as [|d r IH]; intros c D; [discriminate D|]. cbn [chunk_fold data_completes] in *.
+    unfold chunk_data at 1. destruct (chunk_actual c + blen d =? chunk_expected c) eqn:E.
+    - destruct r; [|discriminate D]. apply N.eqb_eq in E. rewrite E, N.ltb_irrefl.
+      destruct (end_chunk _ _ _); reflexivity.
+    - apply andb_true_iff in D as [LT D]. apply N.ltb_lt in LT.
+      destruct (chunk_expected c <? chunk_actual c + blen d) eqn:X; [lia|].
+      rewrite IH by (rsimpl; exact D). reflexivity.
+  Qed.
+
+  (* the data events of one chunk, in closed form *)
+  Lemma chunk_fold_closed sr c ex ds :
+    chunk_expected c = ex -> chunk_actual c = 0 -> (sr = true -> utf8_rem c = [] /\ arr_validator c = VUtf8 /\ 0 < ex) ->
+    data_completes ex 0 ds = true ->
+    chunk_fold call5 sr ds c =
+    if (if sr then utf8_valid (concat ds) else true)
+    then end_chunk call5 sr (set_array c (arr_type c) (more_chunks c) (if sr then built c ++ concat ds else built c) (arr_total c) ex ex
+                                       (utf8_rem c) (arr_validator c))
+    else None.
+  Proof.
+    intros X A H D. destruct sr.
+    - destruct (H eq_refl) as [H1 [H2 H3]].
+      rewrite (string_chunk_fold call5 c ex ds X A H1 H2 H3 (data_completes_from _ _ _ D H3)). rewrite H1, H2. reflexivity.
+    - rewrite plain_fold by (rewrite X, A; exact D). rewrite X. reflexivity.
+  Qed.
+
+  (* ---- the chunks ---- *)
+  (* the array rule is in force: type, bytes announced so far *)
+  Definition AS (sr : bool) (t : arrty) (total : N) (c : rctx) : Prop :=
+    e_rule (cur c) = arule sr /\ arr_type c = t /\ arr_total c = total /\ sr = is_stringlike_validated t /\
+    (sr = true -> utf8_rem c = [] /\ arr_validator c = VUtf8).
+  (* what the array's events leave untouched *)
+  Definition Fr (c c' : rctx) : Prop :=
+    stack c' = stack c /\ depth c' = depth c /\ objects c' = objects c /\ rectypes c' = rectypes c /\ regs c' = regs c /\
+    e_dtype (cur c') = e_dtype (cur c).
+  Lemma Fr_refl c : Fr c c. Proof. repeat split. Qed.
+  Lemma Fr_trans a b c : Fr a b -> Fr b c -> Fr a c.
+  Proof. unfold Fr. intros H1 H2. decompose [and] H1. decompose [and] H2. repeat split; congruence. Qed.
+
+  Lemma rule_chunk_zero sr more c :
+    rule_chunk cfg call5 sr 0 more c = if more then Some c else end_container_like call5 true c.
+  Proof. unfold rule_chunk, try_end_array. cbn [N.eqb]. destruct more; [reflexivity|]. destruct (end_container_like _ _ _); reflexivity. Qed.
+
+  Lemma rule_chunk_nonzero sr t c n more :
+    n <> 0 -> arr_type c = t -> sr = is_stringlike_validated t ->
+    rule_chunk cfg call5 sr n more c =
+    match chunk_byte_count t n with
+    | None => None
+    | Some ex => if length_ok cfg ((arr_total c + ex) mod two64)
+                 then Some (set_rule (set_array c t more (built c) ((arr_total c + ex) mod two64) ex 0 (utf8_rem c) (arr_validator c)) (crule sr))
+                 else None
+    end.
+  Proof.
+    intros N0 T S. unfold rule_chunk. apply N.eqb_neq in N0. rewrite N0. unfold chunk_byte_count. rewrite T, <- S.
+    destruct sr; cbv zeta; unfold length_ok.
+    - destruct ((max_array_size_bytes cfg <? (arr_total c + n) mod two64) && (0 <? max_array_size_bytes cfg)); reflexivity.
+    - destruct (array_bits t) as [bits|]; [|reflexivity].
+      destruct ((max_array_size_bytes cfg <? (arr_total c + elem_byte_count bits n) mod two64) && (0 <? max_array_size_bytes cfg)); reflexivity.
+  Qed.
+
+  Lemma steps_comments c cm : e_rule (cur c) = RArray -> forall rest, steps cfg c (map comment_event cm ++ rest) = steps cfg c rest.
+  Proof.
+    intros R. induction cm as [|[m t] cm IH]; intro rest; [reflexivity|]. cbn [map app]. change (comment_event (m, t)) with (EComment m t). cbn [steps].
+    rewrite (rstep_array_comment c m t R). apply IH.
+  Qed.
+
+  (* a well-formed list of chunks runs to the end of the array *)
+  Lemma array_run t sr chs : forall c total rest,
+    AS sr t total c -> chunks_ok cfg t total chs = true ->
+    exists cA, Fr c cA /\
+      steps cfg c (flat_map chunk_events chs ++ rest) =
+      match end_container_like call5 true cA with Some c' => steps cfg c' rest | None => None end.
+  Proof.
+    induction chs as [|[[[cm n] more] ds] r IH]; intros c total rest A W; [discriminate W|].
+    destruct A as [R [T [Tt [S U]]]]. cbn [chunks_ok] in W. rewrite <- S in W.
+    apply andb_true_iff in W as [Wc W]. cbn [flat_map chunk_events]. rewrite <- !app_assoc.
+    assert (steps cfg c (map comment_event cm ++ (EArrayChunk n more :: map EArrayData ds) ++ flat_map chunk_events r ++ rest) =
+            steps cfg c ((EArrayChunk n more :: map EArrayData ds) ++ flat_map chunk_events r ++ rest)) as ->.
+    { destruct sr; [destruct cm; [reflexivity | discriminate Wc] | apply steps_comments; exact R]. }
+    cbn [app steps]. rewrite (rstep_chunk sr c n more R).
+    destruct (n =? 0) eqn:N0.
+    - apply N.eqb_eq in N0. subst n. rewrite rule_chunk_zero. destruct ds; [|discriminate W]. cbn [map app].
+      destruct more.
+      + apply (IH c total rest); [exact (conj R (conj T (conj Tt (conj S U)))) | exact W].
+      + destruct r; [|discriminate W]. exists c. split; [apply Fr_refl|]. cbn [flat_map app].
+        destruct (end_container_like call5 true c); reflexivity.
+    - apply N.eqb_neq in N0. rewrite (rule_chunk_nonzero sr t c n more N0 T S).
+      destruct (chunk_byte_count t n) as [ex|] eqn:CB; [|discriminate W].
+      apply andb_true_iff in W as [W Wt]. apply andb_true_iff in W as [W Wd]. apply andb_true_iff in W as [Wl Wc2].
+      rewrite Tt. rewrite Wl.
+      cbv beta iota. match goal with |- context [steps cfg ?cc (map EArrayData ds ++ _)] => set (c1 := cc) end.
+      assert (sr = true -> 0 < ex) as EX.
+      { intro X. unfold chunk_byte_count in CB. rewrite <- S, X in CB. inv_some. lia. }
+      rewrite (data_run sr ds c1 _ eq_refl) by exact Wc2.
+      rewrite (chunk_fold_closed sr c1 ex ds eq_refl eq_refl) by (first [exact Wc2 | intro X; destruct (U X) as [U1 U2]; repeat split; [exact U1 | exact U2 | exact (EX X)]]).
+      rewrite Wd. rewrite end_chunk_spec by (intro X; exact (proj1 (U X))).
+      unfold c1. rsimpl. destruct more.
+      + match goal with |- context [steps cfg ?c3 (flat_map chunk_events r ++ rest)] =>
+          destruct (IH c3 ((total + ex) mod two64) rest) as [cA [F E]] end; [|exact Wt|].
+        { unfold AS. split; [reflexivity|]. split; [reflexivity|]. split; [reflexivity|]. split; [exact S|]. intro X. exact (U X). }
+        exists cA. split; [|exact E]. refine (Fr_trans _ _ _ _ F). unfold Fr. rsimpl. repeat split; reflexivity.
+      + destruct r; [|discriminate Wt]. eexists. split; [|cbn [flat_map app]; reflexivity].
+        unfold Fr. rsimpl. repeat split; reflexivity.
+  Qed.
+
+  (* an accepted run from the array rule begins with a well-formed list of chunks *)
+  Lemma array_parse t sr n : forall es c cf total,
+    (length es <= n)%nat -> steps cfg c es = Some cf -> e_rule (cur cf) = RTerminal -> AS sr t total c ->
+    exists chs rest, es = flat_map chunk_events chs ++ rest /\ chunks_ok cfg t total chs = true /\ (length rest < length es)%nat.
+  Proof.
+    induction n as [|n IH]; intros es c cf total L St Tm A; pose proof A as [R [T [Tt [S U]]]].
+    { destruct es; [|cbn in L; lia]. cbn in St. injection St as <-. rewrite R in Tm. destruct sr; discriminate Tm. }
+    destruct es as [|e es'].
+    { cbn in St. injection St as <-. rewrite R in Tm. destruct sr; discriminate Tm. }
+    cbn [length] in L. pose proof St as St0. cbn [steps] in St. destruct (rstep cfg c e) as [[c1 o]|] eqn:RS; [|discriminate].
+    destruct (arule_only _ _ _ _ _ R RS) as [[n0 [more ->]] | [-> [m [tx ->]]]].
+    2:{ (* a comment *)
+      rewrite (rstep_array_comment c m tx R) in RS. injection RS as <- _.
+      destruct (IH es' c cf total) as [chs [rest [E [W Lr]]]]; [lia | exact St | exact Tm | exact A |].
+      destruct chs as [|[[[cm n1] more1] ds1] r]; [discriminate W|].
+      exists ((((m, tx) :: cm, n1, more1, ds1)) :: r), rest. cbn [flat_map chunk_events map app comment_event fst snd length] in *.
+      split; [rewrite E; reflexivity|]. split; [|lia]. cbn [chunks_ok] in *. rewrite <- S in *. exact W. }
+    rewrite (rstep_chunk sr c n0 more R) in RS.
+    destruct (n0 =? 0) eqn:N0.
+    - apply N.eqb_eq in N0. subst n0. rewrite rule_chunk_zero in RS. destruct more.
+      + injection RS as <- _.
+        destruct (IH es' c cf total) as [chs [rest [E [W Lr]]]]; [lia | exact St | exact Tm | exact A |].
+        exists (([], 0, true, []) :: chs), rest. cbn [flat_map chunk_events map app length].
+        split; [rewrite E; reflexivity|]. split; [|lia]. cbn [chunks_ok N.eqb]. rewrite W. destruct (is_stringlike_validated t); reflexivity.
+      + exists [([], 0, false, [])], es'. cbn [flat_map chunk_events map app length chunks_ok N.eqb].
+        split; [reflexivity|]. split; [destruct (is_stringlike_validated t); reflexivity | lia].
+    - apply N.eqb_neq in N0. rewrite (rule_chunk_nonzero sr t c n0 more N0 T S) in RS.
+      destruct (chunk_byte_count t n0) as [ex|] eqn:CB; [|discriminate RS]. rewrite Tt in RS.
+      destruct (length_ok cfg ((total + ex) mod two64)) eqn:Wl; [|discriminate RS].
+      injection RS as <- _.
+      match type of St with steps cfg ?cc _ = _ => set (c1 := cc) in * end.
+      destruct (data_parse sr (length es') es' c1 cf (le_n _) St Tm eq_refl) as [ds [rest1 [E1 [D1 L1]]]].
+      change (chunk_expected c1) with ex in D1. change (chunk_actual c1) with 0 in D1.
+      assert (sr = true -> 0 < ex) as EX.
+      { intro X. unfold chunk_byte_count in CB. rewrite <- S, X in CB. inv_some. lia. }
+      rewrite E1 in St. rewrite (data_run sr ds c1 _ eq_refl) in St by exact D1.
+      rewrite (chunk_fold_closed sr c1 ex ds eq_refl eq_refl) in St
+        by (first [exact D1 | intro X; destruct (U X) as [U1 U2]; repeat split; [exact U1 | exact U2 | exact (EX X)]]).
+      destruct (if sr then utf8_valid (concat ds) else true) eqn:Wd; [|discriminate St].
+      rewrite end_chunk_spec in St by (intro X; exact (proj1 (U X))).
+      unfold c1 in St. rsimpl. destruct more.
+      + match type of St with steps cfg ?c3 rest1 = _ =>
+          destruct (IH rest1 c3 cf ((total + ex) mod two64)) as [chs [rest [E [W Lr]]]] end; [lia | exact St | exact Tm | |].
+        { unfold AS. split; [reflexivity|]. split; [reflexivity|]. split; [reflexivity|]. split; [exact S|]. intro X. exact (U X). }
+        exists (([], n0, true, ds) :: chs), rest. cbn [flat_map chunk_events map app length].
+        split; [rewrite E1, E, <- app_assoc; reflexivity|]. split; [|lia].
+        cbn [chunks_ok]. apply N.eqb_neq in N0. rewrite N0, CB, Wl, D1, W. rewrite <- S, Wd. destruct sr; reflexivity.
+      + exists [([], n0, false, ds)], rest1. cbn [flat_map chunk_events map app length]. rewrite app_nil_r.
+        split; [rewrite E1; reflexivity|]. split; [|lia].
+        cbn [chunks_ok]. apply N.eqb_neq in N0. rewrite N0, CB, Wl, D1. rewrite <- S, Wd. destruct sr; reflexivity.
+  Qed.
+
+  (* ---- the end of the array: the entry below takes the value ---- *)
+  Lemma end_like_plain c p st :
+    stack c = p :: st -> is_value_rule (e_rule p) = true ->
+    end_container_like call5 true c = Some (set_cur (set_stack c st) (with_rule p (next_rule (e_rule p)))).
+  Proof.
+    intros S V. unfold end_container_like. rewrite (unstack_cons _ _ _ S).
+    rewrite (call_rule_cell 4 cfg (set_cur (set_stack c st) p) (e_rule p)) by reflexivity.
+    rewrite (value_cell_exec_plain cfg 4 (e_rule p) MChildContainerEnded _ _ V) by (first [reflexivity | tauto]). reflexivity.
+  Qed.
+
+  (* ---- the begin event ---- *)
+  Definition abegin_state (t : arrty) (dt : N) (c0 : rctx) : rctx :=
+    if is_stringlike_validated t then begin_array t RString dt VUtf8 c0 else begin_array t RArray dt VNothing c0.
+
+  Lemma abegin_plan b :
+    is_array_begin b = true ->
+    ev_plan cfg b = match chunked_type b with Some t => mkplan (Some true) MArrayBegin (array_args t 0 []) b | None => None end.
+  Proof.
+    destruct b; try discriminate; intros _; cbn [ev_plan chunked_type];
+      first [destruct (array_api_ok _); reflexivity | destruct (utf8_valid _ && media_type_valid _); reflexivity
+            | destruct (custom_api_ok _ && custom_type_ok _); reflexivity].
+  Qed.
+
+  Lemma abegin_cells :
+    forallb (fun r => prims_eqb (dispatch r MArrayBegin)
+                        (match pos_of_rule r with
+                         | PSrc => [PAssertArrayType MaskNonNull; PBeginArrayAnyType]
+                         | PDesc => [PAssertArrayType MaskAny; PBeginArrayAnyType]
+                         | _ => [PBeginArrayAnyType]
+                         end)) value_rules = true.
+  Proof. vm_compute. reflexivity. Qed.
+
+  Lemma abegin_exec call r t c0 :
+    is_value_rule r = true ->
+    exec_prims cfg call r MArrayBegin (array_args t 0 []) (dispatch r MArrayBegin) c0 =
+    if arr_guard (pos_of_rule r) t then match array_dtype t with Some dt => Some (abegin_state t dt c0) | None => None end else None.
+  Proof.
+    intro V. apply in_value_rules in V. pose proof abegin_cells as T. rewrite forallb_forall in T. specialize (T r V).
+    apply prims_eqb_eq in T. rewrite T. unfold abegin_state.
+    destruct (pos_of_rule r); cbn [exec_prims exec_prim arr_guard array_args a_arrty mask_value]; unfold begin_array_any;
+      try (destruct (assert_array_type t _); [|reflexivity]);
+      (destruct (array_dtype t); [|reflexivity]); destruct (is_stringlike_validated t); reflexivity.
+  Qed.
+
+  Lemma abegin_AS t dt c0 : AS (is_stringlike_validated t) t 0 (abegin_state t dt c0).
+  Proof.
+    unfold AS, abegin_state. destruct (is_stringlike_validated t); (do 4 (split; [reflexivity|])); intro X; [split; reflexivity | discriminate X].
+  Qed.
+
+  Lemma chunk_usage chs : object_usage (flat_map chunk_events chs) = 0 /\ marker_usage (flat_map chunk_events chs) = 0.
+  Proof.
+    induction chs as [|[[[cm n] more] ds] r [I1 I2]]; [split; reflexivity|]. cbn [flat_map chunk_events].
+    rewrite !object_usage_app, !marker_usage_app, object_usage_cons, marker_usage_cons, I1, I2. cbn [counts_object is_marker].
+    assert (object_usage (map comment_event cm) = 0 /\ marker_usage (map comment_event cm) = 0) as [-> ->]
+      by (clear; induction cm as [|x cm [J1 J2]]; [split; reflexivity | cbn [map]; rewrite object_usage_cons, marker_usage_cons, J1, J2; split; reflexivity]).
+    assert (object_usage (map EArrayData ds) = 0 /\ marker_usage (map EArrayData ds) = 0) as [-> ->]
+      by (clear; induction ds as [|x ds [J1 J2]]; [split; reflexivity | cbn [map]; rewrite object_usage_cons, marker_usage_cons, J1, J2; split; reflexivity]).
+    split; reflexivity.
+  Qed.
+
+  (* a well-formed chunked array where a value may start *)
+  Lemma chunked_steps c b chs :
+    is_value_rule (e_rule (cur c)) = true -> chunked_ok cfg (pos_of_rule (e_rule (cur c))) b chs = true ->
+    room (cur c) -> objects c + 1 <= max_object_count cfg ->
+    exists c', steps cfg c (b :: flat_map chunk_events chs) = Some c' /\
+               core c' = (adv_entry (cur c), stack c, depth c, objects c + 1, rectypes c) /\ regs c' = regs c.
+  Proof.
+    intros V W Rm O. unfold chunked_ok in W. destruct (chunked_type b) as [t|] eqn:CT; [|discriminate W].
+    apply andb_true_iff in W as [W Wc]. apply andb_true_iff in W as [Wd Wg].
+    destruct (array_dtype t) as [dt|] eqn:AD; [|discriminate Wd].
+    assert (is_array_begin b = true) as AB by (destruct b; try discriminate CT; reflexivity).
+    cbn [steps]. rewrite rstep_plan, (abegin_plan b AB), CT. unfold mkplan, plan_step. cbn [p_nno p_meth p_args p_out].
+    rewrite (nno_ok cfg c Rm O). rewrite (call_current_cell cfg _ _ (nno_state c) (e_rule (cur c))) by reflexivity.
+    rewrite (abegin_exec _ _ t _ V), Wg, AD.
+    destruct (array_run t _ chs (abegin_state t dt (nno_state c)) 0 [] (abegin_AS t dt _) Wc) as [cA [F E]].
+    rewrite app_nil_r in E. rewrite E. destruct F as [F1 [F2 [F3 [F4 [F5 F6]]]]].
+    assert (stack (abegin_state t dt (nno_state c)) = bump (cur c) :: stack c) as S1 by (unfold abegin_state; destruct (is_stringlike_validated t); reflexivity).
+    rewrite (end_like_plain cA (bump (cur c)) (stack c)) by (first [rewrite F1; exact S1 | exact V]).
+    eexists. split; [reflexivity|]. unfold core. rsimpl.
+    assert (forall x, depth (abegin_state t dt x) = depth x /\ objects (abegin_state t dt x) = objects x /\
+                      rectypes (abegin_state t dt x) = rectypes x /\ regs (abegin_state t dt x) = regs x) as Q
+      by (intro x; unfold abegin_state; destruct (is_stringlike_validated t); repeat split; reflexivity).
+    destruct (Q (nno_state c)) as [Q1 [Q2 [Q3 Q4]]]. split; [|unfold regs in *; rsimpl; rewrite F5; exact Q4].
+    rewrite F2, F3, F4, Q1, Q2, Q3. reflexivity.
+  Qed.
+
+  (* ... and under a marker: [me] is the marker's entry, [p] the entry that expects the value *)
+  Lemma end_like_marked c me id p st :
+    stack c = me :: p :: st -> is_marker_entry me id -> is_value_rule (e_rule p) = true ->
+    end_container_like call5 true c =
+    match mark_object cfg (e_dtype (cur c)) (set_markers (set_cur (set_stack c (p :: st)) me) id (marked c) (fwd c) (refcount c)) with
+    | Some c4 => Some (set_cur (set_stack c4 st) (with_rule p (next_rule (e_rule p))))
+    | None => None
+    end.
+  Proof.
+    intros S [M1 [M2 M3]] V. destruct marker_container_cells as [_ [_ [_ [_ [_ K]]]]].
+    unfold end_container_like, unstack_rule. rewrite S. rsimpl. rewrite M1, call_rule_S, K.
+    cbn [exec_prims exec_prim with_dtype a_dtype]. rsimpl. unfold entry_marker_id. rewrite M3.
+    destruct (mark_object cfg (e_dtype (cur c)) _) as [c4|] eqn:MO; [|reflexivity].
+    assert (stack c4 = p :: st /\ forall e, set_cur c4 e = set_cur c4 e) as [S4 _].
+    { unfold mark_object in MO. repeat match type of MO with (if ?b then _ else _) = _ => destruct b; try discriminate MO
+                                       | match ?x with _ => _ end = _ => destruct x; try discriminate MO end; inv_some; split; reflexivity. }
+    unfold unstack_rule. rewrite S4.
+    match goal with |- context [call_rule 4 cfg ?rr MChildContainerEnded ?aa ?cc] =>
+      change (call_rule 4 cfg rr MChildContainerEnded aa cc) with (call_rule 4 cfg (e_rule (cur cc)) MChildContainerEnded aa cc);
+      rewrite (call_rule_cell 3 cfg cc (e_rule p) MChildContainerEnded aa) by reflexivity;
+      rewrite (value_cell_exec_plain cfg 3 (e_rule p) MChildContainerEnded aa cc V) by (first [reflexivity | tauto])
+    end.
+    reflexivity.
+  Qed.
+
+  Lemma abegin_marker_cell : dispatch RMarkedObjectAnyType MArrayBegin = [PAssertArrayType MaskMarkable; PForwardParent MArrayBegin].
+  Proof. reflexivity. Qed.
+
+  Lemma abegin_state_fields t dt x :
+    stack (abegin_state t dt x) = cur x :: stack x /\ depth (abegin_state t dt x) = depth x /\ objects (abegin_state t dt x) = objects x /\
+    rectypes (abegin_state t dt x) = rectypes x /\ regs (abegin_state t dt x) = regs x /\ e_dtype (cur (abegin_state t dt x)) = dt.
+  Proof. unfold abegin_state; destruct (is_stringlike_validated t); repeat split; reflexivity. Qed.
+
+  (* a well-formed chunked array right after a marker *)
+  Lemma chunked_steps_marked c b chs id p st mk fw :
+    is_marker_entry (cur c) id -> stack c = p :: st -> is_value_rule (e_rule p) = true ->
+    chunked_ok cfg (pos_of_rule (e_rule p)) b chs = true -> markable (VChunked b chs) = true ->
+    objects c + 1 <= max_object_count cfg ->
+    Reg c mk fw -> id_mem id mk = false -> refcount c + 1 <= max_local_reference_count cfg ->
+    exists c', steps cfg c (b :: flat_map chunk_events chs) = Some c' /\
+               core c' = (with_rule p (next_rule (e_rule p)), st, depth c, objects c + 1, rectypes c) /\
+               Reg c' (id :: mk) (id_remove id fw) /\ refcount c' = refcount c + 1.
+  Proof.
+    intros ME S V W Mk O Rg Nm Rc. pose proof ME as [M1 [M2 M3]].
+    unfold chunked_ok in W. cbn [markable] in Mk. destruct (chunked_type b) as [t|] eqn:CT; [|discriminate W].
+    apply andb_true_iff in W as [W Wc]. apply andb_true_iff in W as [Wd Wg].
+    destruct (array_dtype t) as [dt|] eqn:AD; [|discriminate Wd].
+    assert (is_array_begin b = true) as AB by (destruct b; try discriminate CT; reflexivity).
+    cbn [steps]. rewrite rstep_plan, (abegin_plan b AB), CT. unfold mkplan, plan_step. cbn [p_nno p_meth p_args p_out].
+    rewrite (nno_ok cfg c); [| unfold room; rewrite M2; exact I | exact O].
+    rewrite (call_current_cell cfg _ _ (nno_state c) RMarkedObjectAnyType) by (cbn; exact M1).
+    rewrite abegin_marker_cell. cbn [exec_prims exec_prim array_args a_arrty mask_value]. rewrite Mk.
+    change (stack (nno_state c)) with (stack c). rewrite S, call_rule_S, (abegin_exec _ _ t _ V), Wg, AD.
+    destruct (array_run t _ chs (abegin_state t dt (nno_state c)) 0 [] (abegin_AS t dt _) Wc) as [cA [F E]].
+    rewrite app_nil_r in E. rewrite E. destruct F as [F1 [F2 [F3 [F4 [F5 F6]]]]].
+    destruct (abegin_state_fields t dt (nno_state c)) as [Q0 [Q1 [Q2 [Q3 [Q4 Q5]]]]].
+    rewrite (end_like_marked cA (bump (cur c)) id p st) by
+      (first [rewrite F1, Q0; change (stack (nno_state c)) with (stack c); rewrite S; reflexivity | exact V | repeat split; assumption]).
+    assert (N.land dt Allow_Any <> 0) as Dt.
+    { apply markable_any. unfold assert_array_type in Mk. rewrite AD in Mk. apply negb_true_iff in Mk. apply N.eqb_neq in Mk. exact Mk. }
+    assert (regs cA = regs c) as RG by (rewrite F5, Q4; reflexivity).
+    unfold regs in RG. inversion RG as [[RG1 RG2 RG3]].
+    match goal with |- context [mark_object cfg ?d ?c3] =>
+      destruct (mark_object_ok cfg d c3 mk fw) as [mkl [fwl [EM RL]]] end.
+    { unfold Reg. rsimpl. rewrite RG1, RG2. exact Rg. } { rsimpl. exact Nm. } { rsimpl. rewrite RG3. exact Rc. } { rewrite F6, Q5. exact Dt. }
+    rewrite EM. eexists. split; [reflexivity|]. unfold core. rsimpl. split; [|split; [exact RL | rewrite RG3; reflexivity]].
+    rewrite F2, F3, F4, Q1, Q2, Q3. reflexivity.
+  Qed.
+End ArrayRun.
 
 (* what a value does to the context, where a value may start ... *)
 Definition val_complete (cfg : rcfg) (v : val) : Prop :=
@@ -1365,6 +1842,26 @@ Proof.
     split; [unfold core; rewrite H1, H2, H3, H4, H5; repeat f_equal; clear; lia|].
     split; [|rewrite H6; clear; lia].
     destruct (id_mem id mk || id_mem id fw); inv_some; exact H7.
+  - (* an array delivered in chunks *)
+    intros b chs. split.
+    + intros c nnull mk fw mk' fw' W V NN TO Rm O D Rg Rl Rc. cbn [wf_val flatten reg_val] in *. inv_some. try subst nnull.
+      destruct (chunk_usage chs) as [Uo Um].
+      assert (counts_object b = true /\ is_marker b = false) as [Cb Mb].
+      { unfold chunked_ok in W. destruct b; try discriminate W; split; reflexivity. }
+      rewrite object_usage_cons, Cb, Uo in O |- *. rewrite marker_usage_cons, Mb, Um in Rc |- *.
+      destruct (chunked_steps cfg c b chs V W Rm) as [c' [S [V' G']]]; [clear -O; lia|].
+      unfold regs in G'. inversion G' as [[G1 G2 G3]].
+      exists c'. split; [exact S|]. split; [rewrite V'; repeat f_equal; clear; lia|].
+      split; [eapply Reg_regs; [exact G' | exact Rg] | rewrite G3; clear; lia].
+    + intros c id p st nnull mk fw mk' fw' Mk W M S V Mi NN O D Rg Rl Ni Rc. cbn [wf_val flatten reg_val] in *. injection Rl as <- <-.
+      try subst nnull. destruct (chunk_usage chs) as [Uo Um].
+      assert (counts_object b = true /\ is_marker b = false) as [Cb Mb].
+      { unfold chunked_ok in W. destruct b; try discriminate W; split; reflexivity. }
+      rewrite object_usage_cons, Cb, Uo in O |- *. rewrite marker_usage_cons, Mb, Um in Rc |- *.
+      destruct (chunked_steps_marked cfg c b chs id p st mk fw M S V W Mk) as [c' [S' [V' [Rg' Rc']]]];
+        try assumption; try (clear -O; lia); try (clear -Rc; lia).
+      exists c'. split; [exact S'|]. split; [rewrite V'; repeat f_equal; clear; lia|].
+      split; [exact Rg' | rewrite Rc'; clear; lia].
 Qed.
 (* ------------------------------------------------------------------------- *)
 (* Record types and the document frame                                        *)
